@@ -322,17 +322,7 @@ func (m *C18) canaries(w *eng.World, when string) {
 		}
 		ad := s.AllowedDenoms[0].BankDenom
 		ask := sdk.NewInt64Coin(ad, 7)
-		r = c.Deliver(&markettypes.MsgSell{Seller: seller.String(), Orders: []*markettypes.MsgSell_Order{{BatchDenom: denom, Quantity: "100", AskPrice: &ask, DisableAutoRetire: true}}})
-		if !r.OK {
-			fail("marketplace.Sell", "-", r)
-			return
-		}
-		id := r.RespMsg.(*markettypes.MsgSellResponse).SellOrderIds[0]
-		big1 := sdk.NewCoin(ad, sdk.NewInt(1_000_000_000))
-		fund(buyer, &big1)
-		maxFee := sdk.NewCoin(ad, sdk.NewInt(1_000_000_000))
-		r = c.Deliver(&markettypes.MsgBuyDirect{Buyer: buyer.String(), Orders: []*markettypes.MsgBuyDirect_Order{{SellOrderId: id, Quantity: "3.5", BidPrice: &ask, DisableAutoRetire: true, MaxFeeAmount: &maxFee}}})
-		if !r.OK {
+		sigOf := func() string {
 			sig := "buyer-rate=" + rateClass(br) + ",seller-rate=" + rateClass(sr)
 			switch {
 			case rateClass(br) == "zero" || rateClass(sr) == "zero":
@@ -340,8 +330,45 @@ func (m *C18) canaries(w *eng.World, when string) {
 			case rateClass(sr) == ">1":
 				sig = "seller-rate>1"
 			}
-			fail("marketplace.BuyDirect", sig, r)
+			return sig
+		}
+		// sellBuy lists 100 credits at the given price and buys part of them with funds and an ample max fee
+		sellBuy := func(price sdk.Coin, qty, tag string) (uint64, bool) {
+			r := c.Deliver(&markettypes.MsgSell{Seller: seller.String(), Orders: []*markettypes.MsgSell_Order{{BatchDenom: denom, Quantity: "100", AskPrice: &price, DisableAutoRetire: true}}})
+			if !r.OK {
+				fail("marketplace.Sell", tag, r)
+				return 0, false
+			}
+			id := r.RespMsg.(*markettypes.MsgSellResponse).SellOrderIds[0]
+			budget := sdk.NewCoin(price.Denom, price.Amount.MulRaw(1000).AddRaw(1_000_000_000)) // 100 credits, fee rates of at most a few hundred percent
+			fund(buyer, &budget)
+			r = c.Deliver(&markettypes.MsgBuyDirect{Buyer: buyer.String(), Orders: []*markettypes.MsgBuyDirect_Order{{SellOrderId: id, Quantity: qty, BidPrice: &price, DisableAutoRetire: true, MaxFeeAmount: &budget}}})
+			if !r.OK {
+				sig := sigOf()
+				if tag != "-" {
+					sig += "," + tag
+				}
+				fail("marketplace.BuyDirect", sig, r)
+				return id, false
+			}
+			return id, true
+		}
+		id, ok := sellBuy(ask, "3.5", "-")
+		if !ok {
 			return
+		}
+		// the same with a price at or beyond the 64-bit boundaries, in every allowed denom (an 18-decimals
+		// asset is priced like this); values rotate with the step so that a run covers all of them
+		bigs := []string{"9223372036854775808", "100000000000000000000", "18446744073709551616", "1000000000000000000000000"}
+		qtys := []string{"35", "0.000001", "99.999999", "1"}
+		for i, d := range s.AllowedDenoms {
+			if i >= 3 {
+				break
+			}
+			amt, _ := sdk.NewIntFromString(bigs[(w.StepIdx+i)%len(bigs)])
+			if _, ok := sellBuy(sdk.NewCoin(d.BankDenom, amt), qtys[(w.StepIdx/4+i)%len(qtys)], "price>=2^63"); !ok {
+				return
+			}
 		}
 		// the stated precondition on the max fee is "covers the buyer fee rounded down to whole
 		// units": a max fee of exactly that amount (or none at all when it is zero) must do
